@@ -4,7 +4,7 @@ A *case* is a JSON-serialisable dict
    {'mesh': {...how to build the geometry through the public API...},
     'surfaces': [[column index, elevation], ...]        (optional)
     'pre': [op, ...]                                     (earlier edits, optional)
-    'op': {'name': 'refine'|'decompose'|'split'|'refine_layers', ...}}
+    'op': {'name': 'refine'|'decompose'|'triangulate'|'split'|'refine_layers', ...}}
 `check_case(case)` builds the geometry, records what the property talks about, applies the
 operation, and returns the list of clauses of the property that fail afterwards.
 
@@ -153,6 +153,15 @@ def apply_op(g, op):
         cols = [cl[i].name for i in op.get('columns', []) if i < len(cl)]
         with _quiet(): g.decompose_columns(cols)
         return 'ok'
+    if nm == 'triangulate':
+        cols = [cl[i].name for i in op.get('columns', []) if i < len(cl)]
+        with _quiet():
+            for c in cols: g.triangulate_column(c)
+            # triangulate_column() is the step decompose_columns() applies per column; the caller
+            # (here, as decompose_columns does) adds the connections and rebuilds the block indices
+            for c in g.missing_connections: g.add_connection(c)
+            g.setup_block_name_index(); g.setup_block_connection_name_index()
+        return 'ok' if cols else 'empty-selection'
     if nm == 'split':
         col = cl[op['column']]
         nn = op['node']
@@ -282,6 +291,11 @@ def compare(before, g, opname, rng, npts=6, lattice=0):
         cv = all(shoelace_shifted([opoly[i], opoly[(i + 1) % m], opoly[(i + 2) % m]]) > 0 for i in range(m))
         ci = all(shoelace_shifted([opoly[i], opoly[(i + 1) % m], cen]) > 0 for i in range(m))
         st['parents_convex_centre_inside' if (cv and ci) else 'parents_other'] = st.get('parents_convex_centre_inside' if (cv and ci) else 'parents_other', 0) + 1
+        # hypothesis centre_ok of refine_column_tiles: the centre lies beyond the line joining the
+        # mid-points of the two sides at every corner
+        mid = lambda a, b: ((a[0] + b[0]) / 2.0, (a[1] + b[1]) / 2.0)
+        ck = all(shoelace_shifted([mid(opoly[i], opoly[(i + 1) % m]), cen, mid(opoly[i], opoly[i - 1])]) > 0 for i in range(m))
+        if cv and ci: st['parents_centre_ok' if ck else 'parents_centre_not_ok'] = st.get('parents_centre_ok' if ck else 'parents_centre_not_ok', 0) + 1
         ks = kids.get(o, [])
         if not ks:
             fail('tiling', 'replaced column %r contains no new column' % o, 'new columns tile the old ones'); continue
@@ -411,13 +425,17 @@ def straight_class(poly):
     return '%dgon-%dstraight%s' % (n, len(st), '-adjacent' if adj else '')
 
 
+OPNAMES = {'refine': 'refine', 'decompose': 'decompose_columns', 'triangulate': 'triangulate_column', 'split': 'split_column',
+           'refine_layers': 'refine_layers'}
+
+
 def check_case(case):
     """run one case; returns {'failures': [...], 'status': str, 'stats': {...}}"""
     import random
     rng = random.Random(case.get('seed', 0))
     res = {'failures': [], 'status': 'ok', 'stats': {}}
     op = case['op']
-    opname = {'refine': 'refine', 'decompose': 'decompose_columns', 'split': 'split_column', 'refine_layers': 'refine_layers'}[op['name']]
+    opname = OPNAMES[op['name']]
     try:
         g = build(case['mesh'])
         set_surfaces(g, case.get('surfaces'))
@@ -425,7 +443,7 @@ def check_case(case):
             try: apply_op(g, p)
             except Exception as e:
                 # an earlier edit of the history is itself one of the operations under test
-                pn = {'refine': 'refine', 'decompose': 'decompose_columns', 'split': 'split_column', 'refine_layers': 'refine_layers'}[p['name']]
+                pn = OPNAMES[p['name']]
                 res['failures'].append({'key': '%s:exception' % pn, 'observed': 'earlier edit %r raised %r\n%s' % (p, e, traceback.format_exc()[-600:]),
                                         'required': 'the operation completes'})
                 return res
